@@ -163,12 +163,12 @@ def build_lib(variant='verif'):
     return bdir
 
 
-def build_harness(name, variant='verif', extra=(), libs=('-lpthread',), srcs=None, shared=False):
+def build_harness(name, variant='verif', extra=(), libs=('-lpthread',), srcs=None, shared=False, nolib=False):
     """compile harness/<name>.cpp against the library built from /repo; returns executable path"""
     bdir = build_lib(variant)
     srcs = srcs or [name + '.cpp']
     h = hashlib.sha256()
-    for s in srcs + ['vh.hpp']:
+    for s in srcs + sorted(os.path.basename(x) for x in glob.glob(os.path.join(HARNESS, '*.hpp'))):
         p = os.path.join(HARNESS, s)
         if os.path.exists(p):
             h.update(open(p, 'rb').read())
@@ -180,7 +180,9 @@ def build_harness(name, variant='verif', extra=(), libs=('-lpthread',), srcs=Non
         flags = [f for f in VARIANTS[variant]]
         cmd = ['g++', '-std=gnu++17'] + flags + list(extra) + ['-I', os.path.join(REPO, 'src'), '-I', HARNESS]
         cmd += [os.path.join(HARNESS, s) for s in srcs]
-        if shared:
+        if nolib:
+            cmd += ['-o', exe + '.tmp'] + list(libs)
+        elif shared:
             cmd += ['-o', exe + '.tmp', '-rdynamic', '-L', bdir, '-lrxverif', '-Wl,-rpath,' + bdir, '-Wl,-z,now', '-ldl'] + list(libs)
         else:
             cmd += ['-o', exe + '.tmp', os.path.join(bdir, 'librandomx.a')] + list(libs)
@@ -218,7 +220,7 @@ def tlc(module, cfg, workers=1, env=None, timeout=900, xmx='3g', xss='512m', ext
     meta = os.path.join(WORK, 'tlc', '%d-%d-%s' % (os.getpid(), _meta_ctr[0], module))
     shutil.rmtree(meta, ignore_errors=True)
     os.makedirs(meta, exist_ok=True)
-    jopts = ['-XX:+UseParallelGC', '-Xmx' + xmx, '-Xss' + xss]
+    jopts = ['-XX:+UseParallelGC', '-Xmx' + xmx, '-Xss' + xss, '-Djava.io.tmpdir=' + meta]
     if deque:
         jopts.append('-Dtlc2.tool.queue.IStateQueue=StateDeque')
     cmd = ['java'] + jopts + ['-cp', ':'.join([TLAJAR, CMJAR, JAVADIR]), 'tlc2.TLC',
@@ -311,14 +313,14 @@ def validate_sharded(module, cfg, lines, tag, shards=None, timeout=900, xmx='3g'
         open(p, 'w').write('\n'.join(b) + '\n')
         files.append(p)
     res = {'accepted': 0, 'total': len(lines), 'rejected': [], 'states': 0, 'transitions': 0,
-           'dir': d, 'wall': 0.0}
+           'dir': d, 'wall': 0.0, 'prints': []}
 
     def one(args):
         """validate one shard; after a rejection continue behind the rejected line (bounded), so
         that the rest of the trace is examined too (only valid for traces of independent lines;
         stateful traces pass independent=False)"""
         p, b = args
-        out = {'accepted': 0, 'states': 0, 'transitions': 0, 'rejected': [], 'wall': 0.0}
+        out = {'accepted': 0, 'states': 0, 'transitions': 0, 'rejected': [], 'wall': 0.0, 'prints': []}
         start = 0
         attempt = 0
         while start < len(b):
@@ -327,6 +329,7 @@ def validate_sharded(module, cfg, lines, tag, shards=None, timeout=900, xmx='3g'
                 open(q, 'w').write('\n'.join(b[start:]) + '\n')
             r = validate_trace_file(module, cfg, q, timeout=timeout, xmx=xmx, deque=deque, env=env)
             out['wall'] += r['wall']
+            out['prints'] += [x for x in r['out'].splitlines() if x.startswith('<<"')]
             out['states'] += r['distinct']
             out['transitions'] += r['generated']
             got = min(r['reached'], len(b) - start)
@@ -336,8 +339,14 @@ def validate_sharded(module, cfg, lines, tag, shards=None, timeout=900, xmx='3g'
             bad_i = start + got
             bad = b[bad_i] if bad_i < len(b) else '(end of trace)'
             open(q + '.tlc.out', 'w').write(r['out'])
+            ctx = [bad] if independent else b[start:bad_i + 1]
+            if sum(len(x) for x in ctx) > 64 << 20:
+                ctx = [bad]
             out['rejected'].append({'file': q, 'line_no': bad_i + 1, 'line': bad,
-                                    'tlc': tlc_error_summary(r['out'], 25)})
+                                    'tlc': tlc_error_summary(r['out'], 25),
+                                    'module': module, 'cfg': cfg, 'deque': deque, 'xmx': xmx,
+                                    'env': {k: v for k, v in (env or {}).items() if k != 'TRACE'},
+                                    'trace': ctx})
             attempt += 1
             if not independent or attempt >= max_rejects:
                 break
@@ -350,6 +359,7 @@ def validate_sharded(module, cfg, lines, tag, shards=None, timeout=900, xmx='3g'
         res['states'] += o['states']
         res['transitions'] += o['transitions']
         res['rejected'] += o['rejected']
+        res['prints'] += o['prints']
         res['wall'] = max(res['wall'], o['wall'])
     if not res['rejected']:
         shutil.rmtree(d, ignore_errors=True)
@@ -487,3 +497,31 @@ def hexbytes(h):
 def limbs_of_bytes(b):
     """bytes -> list of 16-bit LE limbs (len must be even)"""
     return [b[i] | (b[i + 1] << 8) for i in range(0, len(b), 2)]
+
+
+def replay(pid, path):
+    """bin/verif replay <ID> <file>: re-decide one recorded violation.  A rejected trace is validated again
+    (module, configuration and the trace lines are in the file); other violations carry their observation and
+    are re-decided by running the check again with the recorded seed."""
+    rec = json.load(open(path))
+    print('property=%s key=%s\n%s' % (rec.get('property'), rec.get('key'), rec.get('text')))
+    pl = rec.get('payload') or {}
+    if isinstance(pl, dict) and pl.get('module') and pl.get('trace'):
+        d = os.path.join(WORK, 'replay', pid)
+        os.makedirs(d, exist_ok=True)
+        t = os.path.join(d, 'replay-%d.ndjson' % os.getpid())
+        open(t, 'w').write('\n'.join(pl['trace']) + '\n')
+        r = validate_trace_file(pl['module'], pl['cfg'], t, xmx=pl.get('xmx', '3g'), deque=pl.get('deque', False),
+                                env=pl.get('env') or None)
+        os.remove(t)
+        if r['accepted']:
+            print('trace of %d line(s) is ACCEPTED by %s/%s now' % (len(pl['trace']), pl['module'], pl['cfg']))
+            return 0
+        print('trace line %d of %d is REJECTED by %s/%s:\n%s' % (r['reached'] + 1, len(pl['trace']), pl['module'], pl['cfg'],
+                                                                tlc_error_summary(r['out'], 25)))
+        print('VIOLATION property=%s replay=%s' % (pid, path))
+        return 1
+    print(json.dumps(pl, indent=1)[:4000])
+    print('(not a trace rejection: re-running the check)')
+    import importlib
+    return importlib.import_module('checks.' + pid.lower()).run()
